@@ -100,7 +100,27 @@ fn is_ambiguous(s: &str) -> bool {
         return true;
     }
 
+    // The reader ignores `_` digit separators wherever they stand (`_1_000` is 1000).
+    if s.contains('_') && is_numeric_looking(&s.replace('_', "")) {
+        return true;
+    }
+
     false
+}
+
+/// Text that no plain scalar can carry unchanged whatever the position: a document marker
+/// (`---` / `...` alone or followed by a blank) or a byte order mark.
+fn is_marker_or_edge_unsafe(s: &str) -> bool {
+    let marker = (s.starts_with("---") || s.starts_with("..."))
+        && s.as_bytes().get(3).is_none_or(|c| c.is_ascii_whitespace());
+    marker || s.contains('\u{FEFF}')
+}
+
+/// Trailing whitespace of a plain scalar is stripped by the reader, so such text must be quoted
+/// when it is written on one line (block scalars keep it).
+#[inline]
+pub(crate) fn has_trailing_whitespace(s: &str) -> bool {
+    s.ends_with(char::is_whitespace)
 }
 
 /// Like `is_ambiguous`, but used for VALUE position.
@@ -133,7 +153,8 @@ fn is_ambiguous_value(s: &str, yaml_12: bool) -> bool {
 /// Internal heuristic used by `write_plain_or_quoted`.
 #[inline]
 pub(crate) fn is_plain_safe(s: &str) -> bool {
-    if is_ambiguous(s) {
+    // `<<` in key position is the merge key.
+    if is_ambiguous(s) || s == "<<" || is_marker_or_edge_unsafe(s) {
         return false;
     }
     let bytes = s.as_bytes();
@@ -171,7 +192,7 @@ pub(crate) fn is_plain_safe(s: &str) -> bool {
 /// could be misinterpreted as a number or boolean.
 #[inline]
 pub(crate) fn is_plain_value_safe(s: &str, yaml_12: bool, in_flow: bool) -> bool {
-    if is_ambiguous_value(s, yaml_12) {
+    if is_ambiguous_value(s, yaml_12) || is_marker_or_edge_unsafe(s) {
         return false;
     }
 
